@@ -254,6 +254,7 @@ type smtScript struct {
 	decls    []string
 	asserts  []string
 	declared map[string]bool
+	instTerms []string // extra ground terms offered to the goal-directed instantiation
 	boxes    map[Sort]bool
 	lits     map[string]string // string literal -> const name
 	opaque   map[Sort]bool
